@@ -26,6 +26,9 @@ def evaluate(rep, cases, nontrivial, what, shrink_budget=100, compare_class=Fals
             if c08.sig_branching_self_reference(case):
                 rep.count("skipped:KF-C08-1 (branching self-reference, see C08)")
                 d = None
+            elif c08.sig_huge_repeat(case):
+                rep.count("skipped: huge $repeat count")
+                d = None
         if d:
             bad.append((case, go, mo, d))
     for c, g, m, d in alias_search(rep, results, compare_class):
